@@ -64,8 +64,12 @@ def concat(sets):
 _SF = {}
 
 
-def selection(kind, words=None):
+def selection(kind, words=None, fresh=False):
+    """fresh=True: a new selection-function object (scared's SelectionFunction remembers the keyword arguments of its previous call, so an
+    object shared between executions would leak state from one explored history into the next)."""
     key = (kind, repr(words))
+    if fresh:
+        _SF.pop(key, None)
     if key not in _SF:
         s = sc()
         if kind == 'attack':
@@ -109,10 +113,10 @@ def family_model(fam):
     return {'cpa': 'hw', 'dpa': 'bit0'}.get(fam, 'value')
 
 
-def make_analysis(fam, kind, prec, disc='maxabs', convergence_step=None, auto=False, words=None, cls=None):
+def make_analysis(fam, kind, prec, disc='maxabs', convergence_step=None, auto=False, words=None, cls=None, fresh_sf=False):
     s = sc()
     install_lut_memo()
-    sf = selection(kind, words)
+    sf = selection(kind, words, fresh=fresh_sf)
     kw = dict(selection_function=sf, model=model_obj(family_model(fam)), precision=prec)
     if kind == 'attack':
         kw['discriminant'] = getattr(s, disc)
